@@ -134,6 +134,19 @@ def well_formed(cons, rankings, at_most_one, what="consensus"):
                 what, sorted(seen, key=str), sorted(univ, key=str), sorted(univ - seen, key=str),
                 sorted(seen - univ, key=str)))
         out.append(model)
+    # the other public views of the same result say the same thing
+    def view(f):
+        return lib.must(f)
+    nb, ln = view(lambda: cons.nb_consensus), view(lambda: len(cons))
+    if nb != len(crs) or ln != len(crs):
+        raise Violation("%s: nb_consensus = %r, len() = %r but %d consensus ranking(s) are held" % (what, nb, ln, len(crs)))
+    its = view(lambda: list(iter(cons)))
+    if len(its) != len(crs) or any(a is not b for a, b in zip(its, crs)) or view(lambda: cons[0]) is not crs[0]:
+        raise Violation("%s: iterating / indexing the Consensus does not give its consensus_rankings" % what)
+    els = view(lambda: cons.elements)
+    if {lib.raw(e) for e in els} != univ or view(lambda: cons.nb_elements) != len(univ):
+        raise Violation("%s: Consensus.elements = %s (nb_elements %r), the dataset's universe is %s" % (
+            what, sorted((lib.raw(e) for e in els), key=str), cons.nb_elements, sorted(univ, key=str)))
     return out
 
 
